@@ -11,6 +11,11 @@
 #include "vf_asm.h"
 
 #define VF_MAXIN 512
+/* C15 frame hooks: a generated wrapper TU (props/C15.py) defines these before including the harness; default: nothing */
+#ifndef VF_FRAME_BEGIN
+#define VF_FRAME_BEGIN() do { } while (0)
+#define VF_FRAME_END() do { } while (0)
+#endif
 unsigned long VF_IN[VF_MAXIN];
 unsigned long VF_INC = 0;
 
@@ -26,8 +31,8 @@ static unsigned long in64 (void)
 #define ASSUME(c) do { if (!(c)) { printf ("REPLAY-ASSUME-FAILED %s\n", #c); exit (3); } } while (0)
 #define CHECK(c, msg) do { if (!(c)) { printf ("REPLAY-FAIL %s\n", msg); exit (1); } } while (0)
 #define WITNESS_END() do { puts ("REPLAY-OK"); exit (0); } while (0)
-#define VF_MAIN_BEGIN int main (int argc, char **argv) { vf_load (argc, argv);
-#define VF_MAIN_END WITNESS_END (); return 0; }
+#define VF_MAIN_BEGIN int main (int argc, char **argv) { vf_load (argc, argv); VF_FRAME_BEGIN ();
+#define VF_MAIN_END VF_FRAME_END (); WITNESS_END (); return 0; }
 #else
 unsigned long nondet_ulong (void);
 static unsigned long in64 (void)
@@ -35,8 +40,8 @@ static unsigned long in64 (void)
 #define ASSUME(c) __CPROVER_assume (c)
 #define CHECK(c, msg) __CPROVER_assert ((c), msg)
 #define WITNESS_END() __CPROVER_assert (0, "WITNESS")
-#define VF_MAIN_BEGIN int main (void) {
-#define VF_MAIN_END WITNESS_END (); return 0; }
+#define VF_MAIN_BEGIN int main (void) { VF_FRAME_BEGIN ();
+#define VF_MAIN_END VF_FRAME_END (); WITNESS_END (); return 0; }
 #endif
 
 /* ---- recording allocator (C04 contract; also keeps heap objects at concrete sizes under CBMC) ----
@@ -101,9 +106,9 @@ static void *vf_realloc (void *o, size_t os, size_t ns)
 #define VF_INSTALL_ALLOC() do { __gmp_allocate_func = vf_alloc; __gmp_reallocate_func = vf_realloc; __gmp_free_func = vf_free; } while (0)
 #undef VF_MAIN_BEGIN
 #ifdef REPLAY
-#define VF_MAIN_BEGIN int main (int argc, char **argv) { vf_load (argc, argv); VF_INSTALL_ALLOC ();
+#define VF_MAIN_BEGIN int main (int argc, char **argv) { vf_load (argc, argv); VF_INSTALL_ALLOC (); VF_FRAME_BEGIN ();
 #else
-#define VF_MAIN_BEGIN int main (void) { VF_INSTALL_ALLOC ();
+#define VF_MAIN_BEGIN int main (void) { VF_INSTALL_ALLOC (); VF_FRAME_BEGIN ();
 #endif
 #endif
 
